@@ -5,5 +5,6 @@ import "verif/harness/authsim"
 
 func main() {
 	authsim.Main(&authsim.Profile{Module: "Obs.C11", Runs: 420, Parses: 2500, TimedPct: 8, FaultPct: 45,
-		OddPct: 45, ConcPct: 35, CfgPct: 5, HostPct: 10, BodyPct: 50, Unlimited: true})
+		OddPct: 45, ConcPct: 35, CfgPct: 5, HostPct: 10, BodyPct: 50, Unlimited: true,
+		ReusePct: 8, CtxPct: 6, CancelPct: 8, RedirPct: 12, DirectedPct: 14})
 }
